@@ -350,10 +350,14 @@ func (server *Server) responseMessage(conn io.Writer, msg *Message) error {
 	if msg != nil {
 		bytes, err = msg.RESPBytes()
 	} else {
-		bytes, err = NewErrorMessage(ErrSystem).Bytes()
+		bytes, err = NewErrorMessage(ErrSystem).RESPBytes()
 	}
 	if err != nil {
-		return err
+		// The reply can not be serialized: answers with an error reply instead of leaving the request unanswered.
+		bytes, err = NewErrorMessage(ErrSystem).RESPBytes()
+		if err != nil {
+			return err
+		}
 	}
 	_, err = conn.Write(bytes)
 	return err
